@@ -14,6 +14,7 @@
 #include <stdexcept>
 
 #include "C12_sets.h"
+#include "C12_ophist.h"
 #include "bsx.h"
 #include "votca/csg/interaction.h"
 #include "votca/csg/potentialfunctions/potentialfunctioncbspl.h"
@@ -419,6 +420,42 @@ static void run_spline(std::map<std::string, std::string> &m, Res &R) {
   R.sample = "S' at interval points: " + sig.substr(0, 100);
 }
 
+// ------------------------------------------------------------------ h: operation histories on one spline object
+static void run_hist(std::map<std::string, std::string> &m, Res &R) {
+  std::string type = m["t"];
+  bool every = m["mode"] == "A";
+  auto ops = bsx::split(m["ops"], ',');
+  auto sp = c12::make(type, false);
+  oph::Model mod;
+  std::string done, sig;
+  for (size_t s = 0; s < ops.size(); s++) {
+    if (!oph::apply(ops[s], type, *sp, mod)) { R.fail("bad-case", "harness: operation " + ops[s] + " not applicable after [" + done + "]"); return; }
+    done += (done.empty() ? "" : ",") + ops[s];
+    if (!(every || s + 1 == ops.size())) continue;
+    std::string K = "ophist-" + type + "-after-" + mod.last + "-";
+    std::string where = " (after " + done + ")";
+    std::set<std::string> seen;
+    auto fail = [&](const std::string &k, const std::string &w) { if (seen.insert(k).second) R.fail(K + k, w + where); };
+    sig = oph::compare_with_fresh(type, *sp, mod, R.checks, fail);
+    if (mod.kind == oph::Model::NONE) continue;
+    // the reported derivative is the derivative of the reported value, on the object as it is now
+    const Eigen::VectorXd &kn = sp->getX();
+    for (Index j = 0; j + 1 < kn.size(); j++) {
+      double h = kn[j + 1] - kn[j];
+      for (double fr : {0.125, 0.5, 0.875}) {
+        double r = kn[j] + fr * h, a = sp->CalculateDerivative(r);
+        ND n = d1([&](double d) { return sp->Calculate(r + d); }, h / 16);
+        double tol = 8 * n.err + 1e-10 * (1 + std::fabs(n.val));
+        R.checks++;
+        if (!(std::fabs(a - n.val) <= tol))
+          fail("derivative-fd", "CalculateDerivative(" + fmt(r) + ")=" + fmt(a) + " but d/dx Calculate=" + fmt(n.val) + " (tol " + dstr(tol) + ")");
+      }
+    }
+  }
+  R.classes.push_back("h:" + type + ":" + mod.last + ":" + sig);
+  R.sample = "final state after " + mod.last + ": S,S' at mid points " + sig.substr(0, 80);
+}
+
 static Res run_case(const std::string &cas) {
   Res R;
   auto m = bsx::kvs(cas);
@@ -427,9 +464,10 @@ static Res run_case(const std::string &cas) {
     else if (cas[0] == 'p') run_potfun(m, R);
     else if (cas[0] == 't') run_pottab(m, R);
     else if (cas[0] == 's') run_spline(m, R);
+    else if (cas[0] == 'h') run_hist(m, R);
     else R.fail("bad-case", "unknown case kind");
   } catch (const std::exception &e) {
-    std::string fam = cas[0] == 'b' ? m["kind"] : (cas[0] == 's' ? "spline-" + m["t"] + "-" + m["bc"] + "-" + m["mode"] : m["f"]);
+    std::string fam = cas[0] == 'h' ? "ophist-" + m["t"] : cas[0] == 'b' ? m["kind"] : (cas[0] == 's' ? "spline-" + m["t"] + "-" + m["bc"] + "-" + m["mode"] : m["f"]);
     R.fail("exception-" + fam, std::string("exception: ") + e.what());
   }
   return R;
@@ -626,6 +664,13 @@ static void all_cases(bool thorough, CaseList &C) {
       }
     }
   }
+  // operation histories on ONE spline object (see C12_ophist.h): all valid sequences of 1..3 (thorough: ..4) operations
+  for (std::string type : {"cubic", "akima", "linear"})
+    for (int len = 1; len <= (thorough ? 4 : 3); len++)
+      oph::histories(type, len, [&](const std::string &ops) {
+        C.push_back("h;t=" + type + ";mode=A;ops=" + ops);
+        if (len > 1) C.push_back("h;t=" + type + ";mode=B;ops=" + ops);
+      });
 }
 
 int main(int argc, char **argv) {
@@ -650,7 +695,10 @@ int main(int argc, char **argv) {
       "differences of CalculateF, D2F symmetry. t: SavePotTab (both overloads) read back and compared with CalculateF on the requested grid. "
       "s: linear/cubic/Akima Interpolate on all grids of spacings {0.5,1,2} with 2..4 (thorough 5) knots x shifts {0,-1.5} x all ordinate vectors over "
       "{-1,0,1,2} x natural/periodic, cubic/linear Fit on 4 grids: CalculateDerivative vs Richardson difference of Calculate at 3 points inside every "
-      "interval. distinct_nontrivial = distinct (interaction, value) + distinct potential value signatures + distinct spline derivative signatures";
+      "interval. h: operation histories on ONE spline object: all valid sequences of 1..3 (thorough 4) operations over every public mutator and evaluation entry point "
+      "(setBC, setBCInt, Interpolate, GenerateGrid+Fit, Fit, setSplineData, getX() write, Calculate/CalculateDerivative scalar+vector, Print, AddToFitMatrix); after every step "
+      "(mode A) or the last step (mode B): derivative vs Richardson difference of the value, and value+derivative bit-identical to a fresh object given only the last data "
+      "operation. distinct_nontrivial = distinct (interaction, value) + distinct potential value signatures + distinct spline derivative signatures";
   if (thorough)
     R.rule += " || THOROUGH lattice: bond lengths {0.5,0.8,1,1.5,2}, angles 10..170 step 2.5 deg, dihedrals -165..165 step 15 deg "
               "(without 0), dihedral bond angles {45,60,90,120,135,150}^2, 10 rigid motions in the open box, boxes cubic/ortho/2 triclinic/large ortho x "
